@@ -93,13 +93,16 @@ impl<const N: usize> Write for Sink<N> {
         if call < 6 && self.accept[call] < take {
             take = self.accept[call];
         }
-        if take > N - self.len {
-            self.overflow = true;
-            take = N - self.len;
+        let mut i = 0;
+        while i < take {
+            if self.len < N {
+                self.data[self.len] = buf[i];
+                self.len += 1;
+            } else {
+                self.overflow = true;
+            }
+            i += 1;
         }
-        // one slice copy (a memcpy for the solver) instead of a byte loop: `take` is often symbolic
-        self.data[self.len..self.len + take].copy_from_slice(&buf[..take]);
-        self.len += take;
         Ok(take)
     }
     fn flush(&mut self) -> io::Result<()> {
